@@ -277,10 +277,11 @@ def _ideal_na(c):
 
 
 def parts(tier):
-    from . import c02
+    from . import c02, c04
 
     return [
         Part("na", check_na, strategy=c02.na_case().map(_ideal_na), budget=dict(quick=160, thorough=3000)),
+        Part("tiptable", check, cases=lambda: c04.tip_cases(tier), exhaustive=True),
         Part("e2e", check, strategy=case(), budget=dict(quick=640, thorough=12000)),
         Part("windows", check, strategy=window_case(), budget=dict(quick=240, thorough=5000)),
     ]
